@@ -7,6 +7,7 @@ import (
 	"net/http"
 	"path/filepath"
 	"sync"
+	"sync/atomic"
 	"time"
 
 	"github.com/superfly/litefs"
@@ -38,7 +39,7 @@ func init() {
 		CaseTimeout: 120 * time.Second,
 		Run:         runC13,
 		Floors: func(tier string) map[string]int {
-			return map[string]int{"forwarded_commits": 60, "forwarded_journal": 10, "forwarded_wal": 10, "grants": 40, "local_writer_blocked": 4,
+			return map[string]int{"forwarded_commits": 60, "release_gate_passages": 20, "forwarded_journal": 10, "forwarded_wal": 10, "grants": 40, "local_writer_blocked": 4,
 				"forged_tx_rejected": 12, "reacquire_same_lock": 4, "primary_writes_after_release": 8, "expired_holder_rejected": 4, "third_replica_converged": 4, "acquire_raced_with_local_commit": 4}
 		},
 	})
@@ -518,8 +519,61 @@ func runC13(c *core.Case) {
 		// R may have exited fatally (WAL) or rolled back; its local state is no longer judged
 	} else {
 		rw.close()
-		if err := e.release(); err != nil {
-			c.Violate("C13/release-failed", err.Error(), e.detail(nil))
+		// Gate inside the release on the primary: at the instant the halt lock's
+		// write locks are free for local writers (a local writer takes them), one
+		// more forwarded transaction carrying the released lock id arrives. From
+		// that instant on the former holder must not be able to publish.
+		{
+			pdb := e.p.Store.DB("db")
+			var armed, fired, inProbe atomic.Bool
+			var gateCode int
+			var gatePosBefore, gatePosAfter mon.PosKey
+			curImg, _ := e.led.get("db", mon.PosOf(e.p.Node, "db"))
+			var body []byte
+			if curImg != nil && curImg.PageN >= 2 {
+				body = forgeLTX(e.p, curImg, e.r.Store.ID())
+			}
+			lockID := fmt.Sprint(hl.ID)
+			pdb.VerifOnLockStateChange(func(lt litefs.LockType, prev, next litefs.RWMutexState) {
+				if !armed.Load() || next != litefs.RWMutexStateUnlocked || body == nil || fired.Load() {
+					return
+				}
+				// (the probe below changes lock states itself: no re-entry)
+				if inProbe.Swap(true) {
+					return
+				}
+				defer inProbe.Store(false)
+				gs := pdb.TryAcquireWriteLock()
+				if gs == nil {
+					return // some of the halt lock's locks are still held
+				}
+				if fired.Swap(true) {
+					gs.Unlock()
+					return
+				}
+				gatePosBefore = mon.PosOf(e.p.Node, "db")
+				gateCode, _ = postTx(e.p.URL(), e.r.Store.ID(), lockID, body)
+				gatePosAfter = mon.PosOf(e.p.Node, "db")
+				gs.Unlock()
+			})
+			armed.Store(true)
+			err := e.release()
+			armed.Store(false)
+			pdb.VerifOnLockStateChange(nil)
+			if err != nil {
+				c.Violate("C13/release-failed", err.Error(), e.detail(nil))
+				return
+			}
+			if fired.Load() {
+				c.Count("release_gate_passages", 1)
+				if gateCode == 200 || gatePosAfter != gatePosBefore {
+					c.Violate("C13/tx-accepted-while-local-writer-holds-lock", fmt.Sprintf("during the release of halt lock %s a local writer already held the write lock when a forwarded transaction with that lock id arrived: it was answered %d and the primary moved %s -> %s", lockID, gateCode, gatePosBefore, gatePosAfter), e.detail(nil))
+					return
+				}
+			}
+		}
+		if false {
+			c.Violate("C13/release-failed", "", e.detail(nil))
 			return
 		}
 		if got := e.p.Store.DB("db").VerifHaltLockID(); got != 0 {
